@@ -6,6 +6,7 @@ monotone is an assumption about `Instant`).
 `Engine.search b tf k prev` is the model of `Engine::search` with a timeout firing at poll `k`.
 -/
 import ChessVerif.Model.Engine
+import ChessVerif.Proofs.Search
 
 namespace Chess.Props.C11
 open Chess Chess.Engine
@@ -57,5 +58,48 @@ theorem search_immediate (b : Board) (tf : ThreeFold) (prev : Nat) :
     · rfl
     · rename_i h
       simp [poll] at h
+
+open Chess.Spec Chess.Proofs.Search in
+/-- **a returned move is legal** — every board, every repetition history, every index `k` at which
+the timeout first reports expiry, every stale `max_depth`: the move is one the generator yields … -/
+theorem search_legal (b : Board) (tf : ThreeFold) (k prev : Nat) (mv : Move)
+    (h : (search b tf k prev).move = some mv) : mv ∈ Props.C10.movesOf (MoveGen.legals b) :=
+  Proofs.Search.search_legal b tf k prev mv h
+
+open Chess.Spec in
+/-- … which on well-formed boards (C06, C02: every parsed and every reachable position) means legal
+by the rules of chess -/
+theorem search_legal_spec (b : Board) (hwf : b.WF = true) (tf : ThreeFold) (k prev : Nat) (mv : Move)
+    (h : (search b tf k prev).move = some mv) : (abs b).legal mv = true :=
+  Proofs.Search.search_legal_spec b hwf tf k prev mv h
+
+/-- **no legal move: no move returned** -/
+theorem search_none (b : Board) (tf : ThreeFold) (k prev : Nat)
+    (h : (MoveGen.legals b).isEmpty = true) : (search b tf k prev).move = none :=
+  Proofs.Search.search_none b tf k prev h
+
+open Chess.Spec in
+theorem search_none_spec (b : Board) (hwf : b.WF = true) (tf : ThreeFold) (k prev : Nat)
+    (h : (abs b).legalMoves = []) : (search b tf k prev).move = none :=
+  Proofs.Search.search_none_spec b hwf tf k prev h
+
+open Chess.Proofs.Search in
+/-- the first pass did not finish before the limit: no move is returned -/
+theorem search_unfinished (b : Board) (tf : ThreeFold) (k prev : Nat)
+    (h : firstPassFinished b tf k = false) : (search b tf k prev).move = none :=
+  Proofs.Search.search_unfinished b tf k prev h
+
+open Chess.Proofs.Search in
+/-- **a move is returned whenever legal moves exist and the first deepening pass finished** -/
+theorem search_some (b : Board) (tf : ThreeFold) (k prev : Nat)
+    (hf : firstPassFinished b tf k = true) (hm : (MoveGen.legals b).isEmpty = false) :
+    (search b tf k prev).move.isSome = true :=
+  Proofs.Search.search_some b tf k prev hf hm
+
+open Chess.Spec Chess.Proofs.Search in
+theorem search_some_spec (b : Board) (hwf : b.WF = true) (tf : ThreeFold) (k prev : Nat)
+    (hf : firstPassFinished b tf k = true) (hm : (abs b).legalMoves ≠ []) :
+    (search b tf k prev).move.isSome = true :=
+  Proofs.Search.search_some_spec b hwf tf k prev hf hm
 
 end Chess.Props.C11
